@@ -48,6 +48,16 @@ impl<'a, T: Send> SendFuture<'a, T> {
       self.shared.unregister(Role::Send, id);
     }
   }
+
+  /// Leaves the waiter set right after a register-then-recheck that succeeded. If a
+  /// notifier dequeued the fresh registration in between, its one wake went to a
+  /// waiter that no longer waits: pass it on (see `Shared::cancel_wait`).
+  #[inline]
+  fn leave_raced(&mut self) {
+    if let Some(id) = self.my_id.take() {
+      self.shared.cancel_wait(Role::Send, id);
+    }
+  }
 }
 
 impl<'a, T: Send> Future for SendFuture<'a, T> {
@@ -86,12 +96,12 @@ impl<'a, T: Send> Future for SendFuture<'a, T> {
     this.shared.pre_park_fence();
 
     if !this.shared.receivers_alive() {
-      this.unregister();
+      this.leave_raced();
       return Poll::Ready(Err(SendError::Closed));
     }
     match this.shared.ring.push(item) {
       Ok(()) => {
-        this.unregister();
+        this.leave_raced();
         this.shared.notify_receivers();
         Poll::Ready(Ok(()))
       }
@@ -135,6 +145,16 @@ impl<'a, T: Send> RecvFuture<'a, T> {
       self.shared.unregister(Role::Recv, id);
     }
   }
+
+  /// Leaves the waiter set right after a register-then-recheck that succeeded. If a
+  /// notifier dequeued the fresh registration in between, its one wake went to a
+  /// waiter that no longer waits: pass it on (see `Shared::cancel_wait`).
+  #[inline]
+  fn leave_raced(&mut self) {
+    if let Some(id) = self.my_id.take() {
+      self.shared.cancel_wait(Role::Recv, id);
+    }
+  }
 }
 
 impl<'a, T: Send> Future for RecvFuture<'a, T> {
@@ -170,17 +190,17 @@ impl<'a, T: Send> Future for RecvFuture<'a, T> {
     this.shared.pre_park_fence();
 
     if let Some(item) = this.shared.ring.pop() {
-      this.unregister();
+      this.leave_raced();
       this.shared.notify_senders();
       return Poll::Ready(Ok(item));
     }
     if !this.shared.senders_alive() {
       if let Some(item) = this.shared.ring.pop() {
-        this.unregister();
+        this.leave_raced();
         this.shared.notify_senders();
         return Poll::Ready(Ok(item));
       }
-      this.unregister();
+      this.leave_raced();
       return Poll::Ready(Err(RecvError::Disconnected));
     }
     Poll::Pending
@@ -223,6 +243,16 @@ impl<'a, T: Send> SendBatchFuture<'a, T> {
       self.shared.unregister(Role::Send, id);
     }
   }
+
+  /// Leaves the waiter set right after a register-then-recheck that succeeded. If a
+  /// notifier dequeued the fresh registration in between, its one wake went to a
+  /// waiter that no longer waits: pass it on (see `Shared::cancel_wait`).
+  #[inline]
+  fn leave_raced(&mut self) {
+    if let Some(id) = self.my_id.take() {
+      self.shared.cancel_wait(Role::Send, id);
+    }
+  }
 }
 
 impl<'a, T: Send> Future for SendBatchFuture<'a, T> {
@@ -249,6 +279,8 @@ impl<'a, T: Send> Future for SendBatchFuture<'a, T> {
       }
       match this.shared.ring.push(item) {
         Ok(()) => {
+          // never keep a registration linked past the push it was made for
+          this.unregister();
           this.sent += 1;
           this.shared.notify_receivers();
           continue;
@@ -272,6 +304,7 @@ impl<'a, T: Send> Future for SendBatchFuture<'a, T> {
       }
       match this.shared.ring.push(item) {
         Ok(()) => {
+          this.leave_raced();
           this.sent += 1;
           this.shared.notify_receivers();
           continue;
@@ -329,6 +362,16 @@ impl<'a, T: Send> SendBatchMutFuture<'a, T> {
     }
   }
 
+  /// Leaves the waiter set right after a register-then-recheck that succeeded. If a
+  /// notifier dequeued the fresh registration in between, its one wake went to a
+  /// waiter that no longer waits: pass it on (see `Shared::cancel_wait`).
+  #[inline]
+  fn leave_raced(&mut self) {
+    if let Some(id) = self.my_id.take() {
+      self.shared.cancel_wait(Role::Send, id);
+    }
+  }
+
   #[inline]
   fn restore_unsent(&mut self) {
     *self.items = mem::take(&mut self.buf).into();
@@ -361,6 +404,8 @@ impl<'a, T: Send> Future for SendBatchMutFuture<'a, T> {
       }
       match this.shared.ring.push(item) {
         Ok(()) => {
+          // never keep a registration linked past the push it was made for
+          this.unregister();
           this.sent += 1;
           this.shared.notify_receivers();
           continue;
@@ -384,6 +429,7 @@ impl<'a, T: Send> Future for SendBatchMutFuture<'a, T> {
       }
       match this.shared.ring.push(item) {
         Ok(()) => {
+          this.leave_raced();
           this.sent += 1;
           this.shared.notify_receivers();
           continue;
@@ -433,6 +479,16 @@ impl<'a, T: Send> RecvBatchFuture<'a, T> {
   fn unregister(&mut self) {
     if let Some(id) = self.my_id.take() {
       self.shared.unregister(Role::Recv, id);
+    }
+  }
+
+  /// Leaves the waiter set right after a register-then-recheck that succeeded. If a
+  /// notifier dequeued the fresh registration in between, its one wake went to a
+  /// waiter that no longer waits: pass it on (see `Shared::cancel_wait`).
+  #[inline]
+  fn leave_raced(&mut self) {
+    if let Some(id) = self.my_id.take() {
+      self.shared.cancel_wait(Role::Recv, id);
     }
   }
 
@@ -488,12 +544,12 @@ impl<'a, T: Send> Future for RecvBatchFuture<'a, T> {
 
     let out = this.drain();
     if !out.is_empty() {
-      this.unregister();
+      this.leave_raced();
       return Poll::Ready(Ok(out));
     }
     if !this.shared.senders_alive() {
       let out = this.drain();
-      this.unregister();
+      this.leave_raced();
       return if out.is_empty() {
         Poll::Ready(Err(RecvError::Disconnected))
       } else {
@@ -538,6 +594,16 @@ impl<'a, T: Send> RecvBatchMutFuture<'a, T> {
   fn unregister(&mut self) {
     if let Some(id) = self.my_id.take() {
       self.shared.unregister(Role::Recv, id);
+    }
+  }
+
+  /// Leaves the waiter set right after a register-then-recheck that succeeded. If a
+  /// notifier dequeued the fresh registration in between, its one wake went to a
+  /// waiter that no longer waits: pass it on (see `Shared::cancel_wait`).
+  #[inline]
+  fn leave_raced(&mut self) {
+    if let Some(id) = self.my_id.take() {
+      self.shared.cancel_wait(Role::Recv, id);
     }
   }
 
@@ -595,12 +661,12 @@ impl<'a, T: Send> Future for RecvBatchMutFuture<'a, T> {
 
     let got = this.drain();
     if got > 0 {
-      this.unregister();
+      this.leave_raced();
       return Poll::Ready(Ok(got));
     }
     if !this.shared.senders_alive() {
       let got = this.drain();
-      this.unregister();
+      this.leave_raced();
       return if got > 0 {
         Poll::Ready(Ok(got))
       } else {
@@ -662,7 +728,8 @@ pub(crate) fn poll_stream_next<T: Send>(
   shared.pre_park_fence();
 
   if let Some(item) = shared.ring.pop() {
-    shared.unregister_recv(id);
+    // a wake that raced with our own success is passed on
+    shared.cancel_recv(id);
     *stream_id = None;
     shared.notify_senders();
     return Poll::Ready(Some(item));
